@@ -899,6 +899,68 @@ func (w *worker) faultWrite(variant int) error {
 	return nil
 }
 
+
+// longLived: sectors uploaded through RPCWriteSector (temporary storage, TempSectorDuration blocks)
+// and appended to a contract that lives longer than that must stay readable: after more than
+// TempSectorDuration blocks and another upload, everything the host lists is read back.
+// Moves the chain tip far ahead: run last.
+func (w *worker) longLived() error {
+	c0, err := w.rig.Form(rhpx.Key(rhpx.RenterKeyID), types.Siacoins(100000), types.Siacoins(200000), 3000)
+	if err != nil {
+		return err
+	}
+	w.cid = 5000
+	w.cur = nil
+	w.s.AddContract(w.cid, c0.ID)
+	c := w.begin("long-lived", nil)
+	tl, ti := w.s.TipLine()
+	c.Op(tl, ti)
+	upload := func(id int) {
+		before := w.snap()
+		_ = before
+		res := w.s.Write(rhpx.WriteArgs{Prices: w.s.GoodPrices(), Token: w.s.GoodToken(w.acct), Len: 64, Sector: id})
+		c.Op(res.Op, res.Impl)
+		if res.Cls != "ok" {
+			c.Oracle("write-refused", "a funded, complete write was refused: %s", res.Impl)
+		}
+	}
+	pinned := []int{61, 62, 63}
+	for _, id := range pinned {
+		upload(id)
+	}
+	before := w.snap()
+	res, _ := w.s.CAppend(w.cid, w.s.GoodPrices(), pinned)
+	c.Op(res.Op, res.Impl)
+	if res.Cls != "ok" {
+		c.Oracle("client-append-rejected", "append of uploaded sectors failed: %s", res.Impl)
+	}
+	w.check(c, "append", "client", before, res, res.Cls != "ok", pinned)
+	w.observe(c)
+	w.listAndRead(c, 0, uint64(len(w.cur)), true)
+	// more than TempSectorDuration blocks pass
+	if err := w.rig.Mine(int(proto4.TempSectorDuration) + 8); err != nil {
+		return err
+	}
+	tl, ti = w.s.TipLine()
+	c.Op(tl, ti)
+	w.listAndRead(c, 0, uint64(len(w.cur)), true)
+	// any other upload
+	upload(64)
+	w.observe(c)
+	// everything the contract lists is still there
+	w.listAndRead(c, 0, uint64(len(w.cur)), true)
+	// and the contract still takes the new sector
+	before = w.snap()
+	res, _ = w.s.CAppend(w.cid, w.s.GoodPrices(), []int{64})
+	c.Op(res.Op, res.Impl)
+	w.check(c, "append", "client", before, res, res.Cls != "ok", append(append([]int(nil), pinned...), 64))
+	w.listAndRead(c, 0, uint64(len(w.cur)), true)
+	w.observe(c)
+	c.Nontrivial = true
+	w.add(c, "kind:long-lived")
+	return nil
+}
+
 type job func(w *worker) error
 
 // sequences over the alphabet 0..n (n itself is out of range) of length <= maxLen
@@ -1044,6 +1106,12 @@ func Run(r *vh.Run) {
 				if err := jobs[ji](w); err != nil {
 					errs[wi] = fmt.Errorf("job %d: %w", ji, err)
 					return
+				}
+			}
+			// moves the chain tip past the other contract's proof height: last, on two workers
+			if wi < 2 {
+				if err := w.longLived(); err != nil {
+					errs[wi] = fmt.Errorf("long-lived: %w", err)
 				}
 			}
 		}(wi)
